@@ -69,3 +69,12 @@ TEXT['C09'] = dict(
    technique='Coq proof (partial): atomic database steps read from the source, store = sequential table on every history, verdicts depend on own steps only, exchanges not derailed under any interleaving; no-alias run, real-time bursts, concurrent API calls, race detector',
    level='PARTIAL. Proved (coq/Properties/C09.v): database operations are atomic (fact extracted from the source each run) and behave as the sequential reference table on every history; a REQUEST verdict depends only on the sender\'s own message, binding and probe; once an address is held for a client its exchange completes whatever operations other handlers perform in between (all interleavings); a DISCOVER is one database operation. Evidenced by runs only: absence of data races (race detector), that option payloads do not alias the receive buffer, that simultaneous DISCOVER/REQUEST bursts through the real Run loop each get exactly one distinct OFFER/ACK. The Go memory model itself is outside the model.',
    note=_SRV_NOTE)
+TEXT['C18'] = dict(
+   technique='Coq proof over a hand-written model of server.New (soundness and completeness of acceptance against a declarative list of validity conditions, independence of map iteration order, exactness of the resulting state) + differential correspondence run with five constructions per configuration',
+   level='Theorems in coq/Properties/C18.v hold for every configuration (any number of client entries, list lengths, durations, networks) and every iteration order of the client map: the model accepts exactly the configurations meeting each named condition (network, lease >= 1 min and < 2^32 s, IPv4 addresses, hardware addresses, range inside the network and ordered, reservations inside the network and pairwise distinct in address and hardware address, own address inside, lists <= 63, texts <= 255); any two orders give the same verdict, the same options for every hardware address and the same set of permanent bindings (exactly the reservations plus the server); every option payload fits its length byte. Tie to lib/server: 500 / 20 000 generated configurations plus 25 directed ones through the real server.New, each field invalid in each way, each built five times; verdict, ranges, bindings and options compared with the model and with the specification.',
+   note='Trusted: Coq kernel, extraction, driver, harness, hand-written model; the Go standard-library parsers classify the strings (harness calls the same functions). Model and theorems describe the code after the repairs F5a-e; on a tree without them the check reports the accepting configurations as violations.')
+
+TEXT['C07'] = dict(
+   technique='Coq proof that the options assembled by the model of dhcpOptions equal a declarative per-field reading of the configuration for every accepted configuration and hardware address; specification evaluated as a monitor on the option lists and on the decoded OFFER/ACK payloads produced by the real code',
+   level='Theorems in coq/Properties/C07.v hold for every configuration the model of server.New accepts (any subset of router/DNS/NTP/domain/host name set globally and per client, any list lengths) and every hardware address: lease seconds, netmask, then router, DNS, NTP, domain, host name with the per-client value where that entry sets one, else the global one, else omitted; the advertised seconds are the whole seconds of the duration handed to the lease database; OFFER and ACK carry the same list. Tie: 300 / 5 000 configurations x 4 hardware addresses through the real dhcpOptions and replies.AssembleOffer/AssembleACK, payloads decoded by the C12 model and compared with the specification.',
+   note='Trusted: as C18. That the address stays reserved for the advertised time is C05/C11 (the duration passed to UpdateClient is the same LeaseDuration field).')
